@@ -33,6 +33,38 @@ func init() {
 	vk.Register("C13", "rand", runC13)
 }
 
+// exhCases lists the cases of one enumerated pair: every context size, one
+// case in three rendered between the stages, and (thorough: every pair; quick:
+// one pair in four) one more case with the context added in two instalments.
+func exhCases(l, r []string, idx, n int, thorough bool) []DiffCase {
+	out := make([]DiffCase, 0, len(ctxSizes)+1)
+	for ci, cn := range ctxSizes {
+		c := DiffCase{L: l, R: r, N: cn, Lay: (idx/n + idx%n + cn&3) % 4}
+		switch (idx*7 + ci*5) % 9 {
+		case 0:
+			c.Pre = []Step{{Op: "context"}}
+		case 1:
+			c.Pre, c.Post = []Step{{Op: "normal"}}, []Step{{Op: "unified", N: 1}}
+		case 2:
+			c.Pre, c.Mid, c.Post = []Step{{Op: "unified"}}, []Step{{Op: "context", N: 1}}, []Step{{Op: "context"}}
+		}
+		out = append(out, c)
+	}
+	if thorough || idx%4 == 1 {
+		c := DiffCase{L: l, R: r, N: 1}
+		switch (idx / 4) % 3 {
+		case 0:
+			c.Mid = []Step{{Op: "ctx", N: 2}}
+		case 1:
+			c.Mid = []Step{{Op: "ctx", N: 50}}
+		case 2:
+			c.N, c.Mid = 2, []Step{{Op: "unify"}, {Op: "ctx", N: 1}}
+		}
+		out = append(out, c)
+	}
+	return out
+}
+
 func TestC13Exhaustive(t *testing.T) {
 	h := vk.Start(t, "C13", "exh")
 	all := seqs([]string{"a", "b", "c"}, h.Pick(5, 6))
@@ -50,8 +82,8 @@ func TestC13Exhaustive(t *testing.T) {
 	}
 	vk.Parallel(h, n*n, func(w, idx int) {
 		l, r := all[idx/n], all[idx%n]
-		for _, cn := range ctxSizes {
-			c := DiffCase{L: l, R: r, N: cn, Lay: (idx/n + idx%n + cn&3) % 4}
+		for _, c := range exhCases(l, r, idx, n, h.Thorough()) {
+			cn := c.N
 			o := &vk.Obs{}
 			slots[w].Enter(c)
 			msg := vk.Guard(func() string { return runC13(c, o) })
@@ -61,7 +93,7 @@ func TestC13Exhaustive(t *testing.T) {
 				return
 			}
 			tallies[w].AddObs(o)
-			if idx%20011 == 17 && cn == 2 {
+			if idx%20011 == 17 && cn == 2 && len(c.Mid) == 0 {
 				h.Sample(c, o.NT)
 			}
 		}
@@ -137,6 +169,51 @@ var (
 	prefixAlphabet    = []string{"abc  ", "abc", "abc ", "ab", "x\r", "x", ""}
 )
 
+var (
+	fmtSteps = []Step{{Op: "normal"}, {Op: "unified"}, {Op: "context"}, {Op: "context"}, {Op: "unified", N: 1}, {Op: "context", N: 1}}
+	anyStep  = rapid.Custom(func(t *rapid.T) Step {
+		switch rapid.IntRange(0, 5).Draw(t, "stepKind") {
+		case 0, 1:
+			return Step{Op: "ctx", N: rapid.SampledFrom([]int{0, 1, 1, 2, 3, 5, 50, -1, math.MaxInt}).Draw(t, "stepN")}
+		case 2:
+			return Step{Op: "unify"}
+		}
+		return rapid.SampledFrom(fmtSteps).Draw(t, "stepFmt")
+	})
+)
+
+// genSteps draws the further steps of the pipeline (see DiffCase.Pre): half of
+// the cases are the plain New.AddContext(N).Unify().
+func genSteps(t *rapid.T, c *DiffCase) {
+	switch rapid.IntRange(0, 9).Draw(t, "pipeline") {
+	case 5, 6:
+		// context added in two or three instalments: a small one first, so that
+		// neighbouring chunks do not meet yet, then one that closes the gaps
+		c.N = rapid.SampledFrom([]int{1, 1, 2, 3}).Draw(t, "n1")
+		if rapid.IntRange(0, 3).Draw(t, "unifyBetween") == 0 {
+			c.Mid = append(c.Mid, Step{Op: "unify"})
+		}
+		c.Mid = append(c.Mid, Step{Op: "ctx", N: rapid.SampledFrom([]int{1, 2, 2, 3, 5, 8, 50, math.MaxInt}).Draw(t, "n2")})
+		if rapid.IntRange(0, 3).Draw(t, "third") == 0 {
+			c.Mid = append(c.Mid, Step{Op: "ctx", N: rapid.SampledFrom([]int{1, 2, 5, 50}).Draw(t, "n3")})
+		}
+	case 7, 8:
+		// the diff is rendered between the stages, most often while it still
+		// has no context (empty ranges)
+		c.Pre = append(c.Pre, rapid.SampledFrom(fmtSteps).Draw(t, "fmtPre"))
+		if rapid.Bool().Draw(t, "fmtMid?") {
+			c.Mid = append(c.Mid, rapid.SampledFrom(fmtSteps).Draw(t, "fmtMid"))
+		}
+		if rapid.Bool().Draw(t, "fmtPost?") {
+			c.Post = append(c.Post, rapid.SampledFrom(fmtSteps).Draw(t, "fmtPost"))
+		}
+	case 9:
+		c.Pre = rapid.SliceOfN(anyStep, 0, 3).Draw(t, "pre")
+		c.Mid = rapid.SliceOfN(anyStep, 0, 3).Draw(t, "mid")
+		c.Post = rapid.SliceOfN(anyStep, 0, 3).Draw(t, "post")
+	}
+}
+
 func TestC13Rand(t *testing.T) {
 	h := vk.Start(t, "C13", "rand")
 	vk.Rapid(h, t, func(t *rapid.T) DiffCase {
@@ -155,7 +232,9 @@ func TestC13Rand(t *testing.T) {
 				l, r = r, l
 			}
 		}
-		return DiffCase{L: l, R: r, Lay: lay, Share: rapid.IntRange(0, 2).Draw(t, "share") == 0, N: rapid.SampledFrom([]int{0, 1, 1, 2, 2, 3, 3, 5, 8, 50, -1, math.MaxInt, math.MaxInt - 2}).Draw(t, "n")}
+		c := DiffCase{L: l, R: r, Lay: lay, Share: rapid.IntRange(0, 2).Draw(t, "share") == 0, N: rapid.SampledFrom([]int{0, 1, 1, 2, 2, 3, 3, 5, 8, 50, -1, math.MaxInt, math.MaxInt - 2}).Draw(t, "n")}
+		genSteps(t, &c)
+		return c
 	}, runC13)
 }
 
